@@ -341,6 +341,28 @@ def check_joint_plan(ctx, W, S, members, agents, d, p, ops):
                             f"state {i}: {interp.state_diff(a, steps_ref[i])}")
     ctx.probes["joint_plan_checked"] += 1
     ctx.probes[f"joint_plan_len_{len(plan)}"] += 1
+    # ---- the trajectory file: the whole trajectory is written, then (history) a shorter one over the same path; each
+    # time the file holds exactly one step per joint action of what was exported last
+    if ops.chance(1, 2):
+        out = ctx.rundir / "joint.trajectory"
+        for label, trs in (("whole", triplets), ("shorter, over the same path", triplets[:1])):
+            if label != "whole" and len(triplets) < 2:
+                break
+            try:
+                exporter.export_to_file(trs, out)
+                text = fs.read_real_bytes(out).decode("utf-8")
+                states, steps = pddl_reader.read_trajectory_tree(sexpr.read_one(text))
+            except Exception as e:
+                raise Violation("C16/joint-trajectory-unreadable", f"export_to_file ({label})",
+                                f"{type(e).__name__}: {e}")
+            if len(steps) != len(trs) or len(states) != len(trs) + 1:
+                raise Violation("C16/joint-trajectory-shape", f"export_to_file ({label})",
+                                f"{len(states)} states / {len(steps)} steps in the file for {len(trs)} joint actions")
+            for i in range(len(trs) + 1):
+                if not interp.state_eq(states[i], steps_ref[i]):
+                    raise Violation("C16/joint-trajectory-state-differs", f"export_to_file ({label})",
+                                    f"state {i}: {interp.state_diff(states[i], steps_ref[i])}")
+            ctx.probes["joint_trajectory_file_checked"] += 1
 
 
 def inject(ctx, W, S, members, agents, d, p, s0, ops):
